@@ -113,6 +113,7 @@ typedef struct model {
 	int rawed;
 	int npkt;
 	int lazy, relogins, warm;
+	int uid;                        /* the session's slot / userid (0, or 10 in the 'eleventh client' start states) */
 } model;
 static model M;
 static struct sockaddr_storage SRC_A, SRC_A2; static socklen_t SRCLEN;
@@ -176,7 +177,7 @@ static void remember(const uint8_t *pkt, int len, int isdata)
 typedef struct pos { int in_seq, in_frag, in_len, in_off; int out_seq, out_frag, out_off, out_sent, out_len; int q_next, q_filled; uint64_t inhash[2]; } pos;
 static void get_pos(pos *p)
 {
-	struct tun_user *u = &s_w_users()[0];
+	struct tun_user *u = &s_w_users()[M.uid];
 	memset(p, 0, sizeof *p);
 	p->in_seq = u->inpacket.seqno; p->in_frag = u->inpacket.fragment; p->in_len = u->inpacket.len; p->in_off = u->inpacket.offset;
 	p->out_seq = u->outpacket.seqno; p->out_frag = u->outpacket.fragment; p->out_off = u->outpacket.offset; p->out_sent = u->outpacket.sentlen; p->out_len = u->outpacket.len;
@@ -262,7 +263,7 @@ static int apply(int li)
 	switch (L->kind) {
 	case L_PING:
 		if (M.cmc > 0x7f00) return 1;
-		plen = L->a ? tm_ping(pkt, ++M.idseq, M.qt, 0, (M.dn_seq + 3) & 7, 13, M.cmc++, DOM) : tm_ping(pkt, ++M.idseq, M.qt, 0, M.dn_seq, M.dn_frag, M.cmc++, DOM);
+		plen = L->a ? tm_ping(pkt, ++M.idseq, M.qt, M.uid, (M.dn_seq + 3) & 7, 13, M.cmc++, DOM) : tm_ping(pkt, ++M.idseq, M.qt, M.uid, M.dn_seq, M.dn_frag, M.cmc++, DOM);
 		remember(pkt, plen, 0);
 		send_q(&SRC_A, pkt, plen);
 		break;
@@ -271,12 +272,12 @@ static int apply(int li)
 		uint8_t ip[300], z[400];
 		int last = L->kind == L_DATA_LAST;
 		if (!last && M.up_open) return 1;            /* one packet in progress at a time, like the real client */
-		int n = tm_ippkt(ip, 60, 0x0A000002, 0xC0A80101u, 1000 + M.npkt);
+		int n = tm_ippkt(ip, 60, (0x0A000002u + (uint32_t)M.uid), 0xC0A80101u, 1000 + M.npkt);
 		int zl = tm_compress(ip, n, z, sizeof z);
 		int off = 0, len = zl;
 		if (!M.up_open) { M.up_seq = (M.up_seq + 1) & 7; M.up_frag = 0; if (!last) { len = zl / 2; M.up_open = 1; } else M.npkt++; }
 		else { M.up_frag++; off = zl / 2; len = zl - off; M.up_open = 0; M.npkt++; }
-		plen = tm_data(pkt, ++M.idseq, M.qt, 0, M.up_seq, M.up_frag, M.dn_seq, M.dn_frag, last, "abcdefghijklmnopqrstuvwxyz0123456789"[M.datacmc++ % 36], REF_B32, z + off, len, DOM);
+		plen = tm_data(pkt, ++M.idseq, M.qt, M.uid, M.up_seq, M.up_frag, M.dn_seq, M.dn_frag, last, "abcdefghijklmnopqrstuvwxyz0123456789"[M.datacmc++ % 36], REF_B32, z + off, len, DOM);
 		remember(pkt, plen, 1);
 		if (L->a) for (int k = 1; k <= pkt[12]; k++) pkt[12 + k] = toupper(pkt[12 + k]);
 		send_q(&SRC_A, pkt, plen);
@@ -330,7 +331,7 @@ static int apply(int li)
 	}
 	case L_TUN: {
 		static uint8_t ip[8200];
-		int n = tm_ippkt(ip, L->a, 0xC0A80101u, 0x0A000002, 2000 + M.npkt++);
+		int n = tm_ippkt(ip, L->a, 0xC0A80101u, (0x0A000002u + (uint32_t)M.uid), 2000 + M.npkt++);
 		adv_tun_in(ip, n);
 		break;
 	}
@@ -339,22 +340,22 @@ static int apply(int li)
 		uint8_t h[16];
 		if (M.rawed) return 1;
 		ref_login(pw32, M.seed + 1, h);
-		plen = tm_raw(pkt, 0x10, 0, h, 16);
+		plen = tm_raw(pkt, 0x10, M.uid, h, 16);
 		adv_send(&SRC_A, SRCLEN, pkt, plen);
 		M.rawed = 1;
 		break;
 	}
 	case L_RAWPING:
 		if (!M.rawed) return 1;
-		plen = tm_raw(pkt, 0x30, 0, NULL, 0);
+		plen = tm_raw(pkt, 0x30, M.uid, NULL, 0);
 		adv_send(&SRC_A2, SRCLEN, pkt, plen);
 		break;
 	case L_RAWDATA: {
 		uint8_t ip[100], z[200];
 		if (!M.rawed) return 1;
-		int n = tm_ippkt(ip, 40, 0x0A000002, 0xC0A80101u, 3000 + M.npkt++);
+		int n = tm_ippkt(ip, 40, (0x0A000002u + (uint32_t)M.uid), 0xC0A80101u, 3000 + M.npkt++);
 		int zl = tm_compress(ip, n, z, sizeof z);
-		plen = tm_raw(pkt, 0x20, 0, z, zl);
+		plen = tm_raw(pkt, 0x20, M.uid, z, zl);
 		adv_send(&SRC_A2, SRCLEN, pkt, plen);
 		break;
 	}
@@ -362,7 +363,7 @@ static int apply(int li)
 		/* a fragment size beyond what one CNAME/A answer can carry (about 140 bytes) is a user misconfiguration: the answer
 		 * format silently truncates the fragment (see ea.c, exclude_oversized_fragsize); not part of the alphabet there */
 		if ((M.qt == 5 || M.qt == 1) && L->a > 100) return 1;
-		plen = tm_setfrag(pkt, ++M.idseq, M.qt, 0, L->a, M.cmc++, DOM);
+		plen = tm_setfrag(pkt, ++M.idseq, M.qt, M.uid, L->a, M.cmc++, DOM);
 		send_q(&SRC_A, pkt, plen);
 		break;
 	case L_RELOGIN: {
@@ -372,15 +373,15 @@ static int apply(int li)
 		int lazy = M.lazy, cmc = M.cmc, idseq = M.idseq, qt = M.qt, npkt = M.npkt;
 		memset(&M, 0, sizeof M); memset(&FST[1], 0, sizeof FST[1]);
 		M.lazy = lazy; M.cmc = cmc; M.idseq = idseq; M.qt = qt; M.npkt = npkt; M.relogins = 1;
-		handshake();
-		if (s_w_users()[0].seed != (int)M.seed) vw_fatal("new session did not take over slot 0");
+		handshake();           /* every slot has expired: the new session gets slot 0 (M.uid is 0 again) */
+		if (s_w_users()[M.uid].seed != (int)M.seed) vw_fatal("new session did not take over slot 0");
 		for (int i = 0; i < NPEND; i++) M.pending[i].used = 0;
 		adv_clear();
 		do_settle = 0;
 		break;
 	}
 	case L_LAZY:
-		plen = tm_short(pkt, ++M.idseq, M.qt, 'o', tm_5to8(0), L->a ? 'l' : 'i', M.cmc++, DOM);
+		plen = tm_short(pkt, ++M.idseq, M.qt, 'o', tm_5to8(M.uid), L->a ? 'l' : 'i', M.cmc++, DOM);
 		send_q(&SRC_A, pkt, plen);
 		M.lazy = L->a;
 		break;
@@ -438,15 +439,20 @@ static void key(uint64_t k[2])
 static const char *lname(int l) { return LT[l].name; }
 
 /* ---------------------------------------------------------------- start states: type x lazy */
-#define NSTART 21
+#define NSTART 25
+/* 21..24: the session is the server's eleventh (userid 10, hex digit 'a' in data queries) behind ten parties that only sent a version request */
+static const int SLOT_BASE[4] = { 0, 9, 14, 17 };
+#define SLOT_INNER(st) ((st) >= 21 ? SLOT_BASE[(st) - 21] : (st))
+#define IS_WARM(st) (SLOT_INNER(st) >= 14)
 #define C15WARM(st) ((st) >= 17 && (st) <= 19)
 #define C16WARM(st) (((st) >= 14 && (st) <= 16) || (st) == 20)
 /* start states 14..16: warmed-up sessions (NULL lazy, NULL immediate, TXT lazy) */
 static const int WARM_BASE[7] = { 0, 7, 2, /* C15 warm-ups: */ 0, 9, 4, /* C16 again: PRIVATE (type 65399), lazy */ 1 };
-static void start_desc(int st, char *b, size_t n)
+static void start_desc(int st00, char *b, size_t n)
 {
+	int st = SLOT_INNER(st00);
 	int base = st >= 14 ? WARM_BASE[st - 14] : st;
-	snprintf(b, n, "session logged in with -T %s, %s mode%s", QTN[base % 7], base < 7 ? "lazy" : "immediate",
+	snprintf(b, n, "session %slogged in with -T %s, %s mode%s", st00 >= 21 ? "in slot 10 (ten other parties sent a version request first) " : "", QTN[base % 7], base < 7 ? "lazy" : "immediate",
 		 C15WARM(st) ? ", warmed up: N(200), a 1000-byte packet on the server's tun, four fragments fetched and acknowledged (answer cache full and wrapped, fifth fragment outstanding)" :
 		 st >= 14 ? ", warmed up: 17 idle pings, 7 one-fragment packets each way (both 3-bit sequence numbers about to wrap, 24+ pings in the server's query memory)" : "");
 }
@@ -471,18 +477,20 @@ static void handshake(void)
 		int k = decode_downstream(&m, adv_outs[0].data, pl, sizeof pl);
 		if (k < 9 || memcmp(pl, "VACK", 4)) vw_fatal("start state: no VACK (decoded %d bytes)", k);
 		M.seed = (pl[4] << 24) | (pl[5] << 16) | (pl[6] << 8) | pl[7];
+		if (pl[8] != M.uid) vw_fatal("start state: the session got slot %d, expected %d", pl[8], M.uid);
 	}
 	expect_one("version");
 	uint8_t h[16]; ref_login(pw32, M.seed, h);
-	adv_clear(); n = tm_login(pkt, ++M.idseq, M.qt, 0, h, 16, M.cmc++, DOM); send_q(&SRC_A, pkt, n); expect_one("login");
-	if (!s_w_users()[0].authenticated) vw_fatal("start state: login not accepted");
-	if (M.lazy) { adv_clear(); n = tm_short(pkt, ++M.idseq, M.qt, 'o', tm_5to8(0), 'l', M.cmc++, DOM); send_q(&SRC_A, pkt, n); expect_one("lazy switch"); }
+	adv_clear(); n = tm_login(pkt, ++M.idseq, M.qt, M.uid, h, 16, M.cmc++, DOM); send_q(&SRC_A, pkt, n); expect_one("login");
+	if (!s_w_users()[M.uid].authenticated) vw_fatal("start state: login not accepted");
+	if (M.lazy) { adv_clear(); n = tm_short(pkt, ++M.idseq, M.qt, 'o', tm_5to8(M.uid), 'l', M.cmc++, DOM); send_q(&SRC_A, pkt, n); expect_one("lazy switch"); }
 }
 
-static void boot(int st0)
+static void boot(int st00)
 {
+	int st0 = SLOT_INNER(st00), uid = st00 >= 21 ? 10 : 0;
 	int st = st0 >= 14 ? WARM_BASE[st0 - 14] : st0;
-	struct w_server_cfg c = { .topdomain = DOM, .password = PW, .my_ip = "10.0.0.1", .netmask = 29, .mtu = 1130, .check_ip = 1, .srand_seed = 1 };
+	struct w_server_cfg c = { .topdomain = DOM, .password = PW, .my_ip = "10.0.0.1", .netmask = uid ? 27 : 29, .mtu = 1130, .check_ip = 1, .srand_seed = 1 };
 	uint8_t pkt[800]; int n;
 	vw_init();
 	IMG_REGISTER(s);
@@ -494,6 +502,13 @@ static void boot(int st0)
 	if (!pristine) pristine = malloc(sizeof *pristine * s_w_created_users());
 	memcpy(pristine, s_w_users(), sizeof *pristine * s_w_created_users());
 	M.lazy = st < 7;
+	for (int i = 0; i < uid; i++) {
+		struct sockaddr_storage fa; socklen_t fl; char ip[32];
+		snprintf(ip, sizeof ip, "203.0.113.%d", 10 + i); vw_mkaddr(&fa, &fl, ip, 41000 + i);
+		n = tm_version(pkt, 0x3300 + i, M.qt, 0x00000502, 0x77 + i, DOM);
+		adv_send(&fa, fl, pkt, n); settle(); adv_clear();
+	}
+	M.uid = uid;
 	handshake();
 	for (int i = 0; i < NPEND; i++) if (M.pending[i].used) vw_fatal("start state: handshake query left unanswered");
 	adv_clear();
@@ -501,7 +516,7 @@ static void boot(int st0)
 		int ln = letter_by_name("N(200)"), lt = letter_by_name("tun(1000B)"), lp = letter_by_name("ping(ack)");
 		apply(ln); apply(lt);
 		for (int i = 0; i < 4; i++) apply(lp);
-		struct tun_user *u = &s_w_users()[0];
+		struct tun_user *u = &s_w_users()[M.uid];
 		if (u->outpacket.len <= 0 || u->outpacket.fragment < 3) vw_fatal("C15 warm-up did not leave a packet in flight (len %d frag %d)", u->outpacket.len, u->outpacket.fragment);
 		M.warm = 1;
 		adv_clear();
@@ -512,7 +527,7 @@ static void boot(int st0)
 		int ldu = is16 ? letter_by_name("data(last,upper)") : ld;
 		for (int i = 0; i < 7; i++) apply((i & 1) ? ldu : ld);
 		apply(lp);
-		struct tun_user *u = &s_w_users()[0];
+		struct tun_user *u = &s_w_users()[M.uid];
 		if (u->outpacket.seqno != 7 || u->inpacket.seqno != 7) vw_fatal("warm-up did not park the sequence numbers (down %d up %d)", u->outpacket.seqno, u->inpacket.seqno);
 		adv_clear();
 	}
@@ -534,7 +549,7 @@ static void job(int j)
 }
 static int STARTS[NSTART], nstarts;
 static int base_depth;
-static void jobn(int j) { XC.job = STARTS[j / nlt] * nlt + j % nlt; OPS.maxdepth = STARTS[j / nlt] >= 14 ? base_depth - 2 : base_depth; job(XC.job); }
+static void jobn(int j) { XC.job = STARTS[j / nlt] * nlt + j % nlt; OPS.maxdepth = IS_WARM(STARTS[j / nlt]) ? base_depth - 2 : base_depth; job(XC.job); }
 static void describe_job(int j, char *b, size_t n) { char d[300]; start_desc(j / nlt, d, sizeof d); snprintf(b, n, "%s; first letter %s", d, LT[j % nlt].name); }
 
 int main(int argc, char **argv)
@@ -570,6 +585,11 @@ int main(int argc, char **argv)
 	if (is16) for (int s = 14; s < 17; s++) STARTS[nstarts++] = s;
 	if (is15) for (int s = 17; s <= 19; s++) STARTS[nstarts++] = s;
 	if (is16) STARTS[nstarts++] = 20;
+	/* the same session as the server's eleventh client */
+	STARTS[nstarts++] = 21;
+	if (thorough || is10 || is14) STARTS[nstarts++] = 22;
+	if (is16) STARTS[nstarts++] = 23;
+	if (is15) STARTS[nstarts++] = 24;
 	xp_run_jobs(nstarts * nlt, jobn, a.workers);
 	{ char names[3000] = ""; for (int i = 0; i < nlt && i < 40; i++) { strcat(names, LT[i].name); strcat(names, i + 1 < nlt ? " | " : ""); } xp_sample("alphabet (%d letters): %s", nlt, names); }
 	(void)nplain;
